@@ -3,7 +3,7 @@
    and raises the documented error; a constraint violation is raised exactly when carrying out
    the operation would produce an ill-formed object. *)
 From Coq Require Import List ZArith Bool Lia.
-From Basyx Require Import model.ConstraintsBase gen.Gen_RefChecks model.ConstraintsModel model.ConstraintsSpec.
+From Basyx Require Import model.ConstraintsBase gen.Gen_RefChecks gen.Gen_SemSetter model.ConstraintsModel model.ConstraintsSpec.
 Import ListNotations.
 Local Open Scope Z_scope.
 
@@ -229,6 +229,15 @@ Proof.
     pose proof (len_nonneg _ l'). lia.
 Qed.
 
+Lemma sem_setter_is_validate : forall g l p,
+  sem_setter_check (negb (g_present g)) (len l) p false = validate OSem p g (nonempty l).
+Proof.
+  intros g l p. unfold sem_setter_check, sem_setter_flow, validate, nonempty.
+  pose proof (len_nonneg _ l) as Hn.
+  destruct (g_present g); destruct p; cbn;
+    destruct (Z.gtb_spec (len l) 0); destruct (Z.eqb_spec (len l) 0); cbn; try reflexivity; lia.
+Qed.
+
 Lemma hooks_spec : forall o s p s' v, wf_owner o s -> effect o s p = inr (s', v) ->
   (hooks o s p = None -> wf_owner o s') /\
   (forall e, hooks o s p = Some e -> e = EAASd (cnum o) /\ ~ wf_owner o s').
@@ -277,10 +286,15 @@ Proof.
     + intro H. assert (hi = lo) by lia. subst hi. unfold list_del_slice, zfirstn, zskipn. apply firstn_skipn.
   - (* SetList *) inversion He; subst.
     apply set_hook_spec; [exact Hwf | lia | apply len_nonneg | lia].
-  - (* SetType *) destruct o; try discriminate. inversion He; subst.
-    apply validate_post; [exact Hg|]. apply nonempty_iff.
+  - (* SetType *) destruct o; try discriminate; inversion He; subst.
+    + apply validate_post; [exact Hg|]. apply nonempty_iff.
+    + (* OSem: attaching / detaching does not touch semantic ids *)
+      split; [|discriminate]. intros _. destruct Hwf as (H1 & H2). split; [exact H1 | exact H2].
   - (* SetGaid *) destruct (validate_gid g) eqn:Eg; [discriminate|]. inversion He; subst.
-    apply validate_post; [destruct g; [discriminate | discriminate | discriminate]|]. apply nonempty_iff.
+    assert (Hgb : g <> GBad) by (destruct g; discriminate).
+    destruct o; try (apply validate_post; [exact Hgb | apply nonempty_iff]).
+    (* OSem: the translated semantic_id setter equals the AASd-118 test, whatever the containment state *)
+    rewrite sem_setter_is_validate. apply validate_post; [exact Hgb | apply nonempty_iff].
 Qed.
 
 (* errors Python itself raises before any hook runs, and when *)
@@ -291,7 +305,7 @@ Definition plain_error (o : owner) (s : st) (p : op) (e : err) : Prop :=
   | SetItem i _ | DelItem i => e = EIndex /\ norm_index (items s) i = None
   | Remove x => e = EValue /\ ~ In x (items s)
   | SetGaid g => e = EValue /\ g = GBad
-  | SetType _ => e = EAttr /\ o <> OEntity
+  | SetType _ => e = EAttr /\ o = OAsset
   | _ => False
   end.
 
@@ -313,7 +327,7 @@ Proof.
   - destruct (norm_index (items s) i) eqn:E; [discriminate|]. inversion H. auto.
   - destruct (norm_index (items s) i) eqn:E; [discriminate|]. inversion H. auto.
   - inversion H. reflexivity.
-  - destruct o; try discriminate; inversion H; split; [reflexivity | discriminate | reflexivity | discriminate].
+  - destruct o; try discriminate; inversion H; split; reflexivity.
   - destruct g; simpl in H; try discriminate. inversion H. auto.
 Qed.
 
